@@ -37,17 +37,17 @@ pub fn format(report: &TaxReport) -> String {
         let gross_proceeds = year.gross_proceeds();
         let taxable = year.taxable_gain(exemption);
 
-        let row_line = format!(
-            "{:<12}{:<12}{:<22}{:<22}{:<12}{:<12}{:<12}{:<14}",
-            format_tax_year(year.period.start_year()),
-            year.disposal_count(),
-            format_gbp(year.net_gain),
-            format_gbp(year.total_gain),
-            format_gbp(year.total_loss),
-            format_gbp(gross_proceeds),
-            format_gbp(exemption),
-            format_gbp(taxable)
-        );
+        let row_line = [
+            summary_cell(&format_tax_year(year.period.start_year()), 12),
+            summary_cell(&year.disposal_count().to_string(), 12),
+            summary_cell(&format_gbp(year.net_gain), 22),
+            summary_cell(&format_gbp(year.total_gain), 22),
+            summary_cell(&format_gbp(year.total_loss), 12),
+            summary_cell(&format_gbp(gross_proceeds), 12),
+            summary_cell(&format_gbp(exemption), 12),
+            summary_cell(&format_gbp(taxable), 14),
+        ]
+        .concat();
         let _ = writeln!(out, "{}", row_line.trim_end());
 
         if year.dividend_income > Decimal::ZERO {
@@ -241,6 +241,16 @@ pub fn format(report: &TaxReport) -> String {
     }
 
     out.trim_end().to_string() + "\n"
+}
+
+/// Left-align `text` in a summary column of `width` characters, always leaving at least
+/// one space before the next column (figures of £1,000,000.00 and more fill the column).
+fn summary_cell(text: &str, width: usize) -> String {
+    if text.chars().count() < width {
+        format!("{text:<width$}")
+    } else {
+        format!("{text} ")
+    }
 }
 
 pub struct PlainFormatter;
